@@ -111,6 +111,15 @@ func compareDatesForLetter(value, start, end Date) string {
 	endTime := end.Time().Truncate(24 * time.Hour)
 
 	switch {
+	case valueTime.Equal(startTime) && valueTime.Equal(endTime):
+		// The range is a single day. The end of another range that falls on
+		// that day is on its upper boundary, the start on its lower boundary.
+		if value.IsEndOfRange {
+			return "E"
+		}
+
+		return "e"
+
 	case valueTime.Equal(startTime):
 		return "e"
 
